@@ -1,15 +1,29 @@
 """C15 — shipped scenarios always generate valid, exactly round-trippable messages."""
-import json, os, re, glob, math
+import json, os, re, glob, math, copy, random
+from concurrent.futures import ProcessPoolExecutor
 from common import *
+import scen, scen2v
 
 PROP = "C15"
 COQ_TARGETS = ["Props/C15.vo"]
 TRANSLATOR = []
 
 TRUSTED = [
-    "Coq 8.16.1 kernel; no axioms",
-    "PARTIAL: the random draws of the scenario generators (datafake-rs / fake: word lists, number ranges) are not modelled; the theorem covers only the numeric part (a generated decimal amount is published as exactly that decimal)",
-    "per draw: the same four plugins as tests/end2end.rs (generate_mt, publish_mt, validate_mt, parse_mt) run by the harness on every shipped scenario file; the generated and the parsed JSON are compared exactly (numbers by binary64 value, an absent key = null), with no rounding",
+    "Coq 8.16.1 kernel, vm_compute for the fit of the 2 279 distinct leaves of gen/Scenarios.v; no axioms",
+    "PARTIAL: the theorems say that every text leaf of every shipped scenario, in every draw, has the characters, length and first / last character that the "
+    "component it fills requires (C15_every_leaf_fits_in_every_draw), and that generated decimal amounts are published exactly; that the library publishes, "
+    "validates, parses and reads back a message whose leaves have the required shape is explored per draw, not proved",
+    "lib/scen2v.py (translator, Python): renders /repo/test_scenarios/mt*/*.json (var inlined, cat / substr / if as TCat / TSub / TAny, anything else TTop = never fits), "
+    "the word lists of the `fake` crate (src/locales/mod.rs of the version in /repo/Cargo.lock) and spec/scenario_reqs.json into gen/Scenarios.v on every run",
+    "the languages of the 17 `fake` kinds the scenarios use are transcribed by hand (lib/scen.py kind_lang) from datafake-rs/src/operators/fake.rs and fake/src/faker/impls; "
+    "assumption, validated on every run: N real values of every kind and argument list used (harness op fakegen) are members of the transcribed language; "
+    "`date` is the clock: modelled as any calendar day of 2000-2049",
+    "the template semantics (var / cat / substr / if / == / *) is lib/scen.py evaluate, mirrored by Scenario/Lang.v den; tie: for every directed draw the model's JSON equals "
+    "the JSON the library's own generator (datafake-rs) produces from the same scenario with its fake nodes replaced by the chosen values",
+    "spec/scenario_reqs.json (hand-written requirement per field component) is validated against the library: strings drawn from the requirement itself (all punctuation "
+    "first / last / inside, longest, shortest, trailing blank) are put at a leaf with that requirement and must pass the whole pipeline",
+    "per draw: the same four plugins as tests/end2end.rs (generate_mt, publish_mt, validate_mt, parse_mt) run by the harness; the generated and the parsed JSON are compared "
+    "exactly (numbers by binary64 value, an absent key = null), with no rounding",
 ]
 
 
@@ -48,50 +62,306 @@ def first_diff(a, b, path=""):
     return None if a == b else (path, a, b)
 
 
+def hexs(s):
+    return s.encode("utf-8").hex()
+
+
+def verdict(r):
+    """None when the draw passes, else what failed"""
+    if "panic" in r or "crash" in r:
+        return "the pipeline panicked or died: %s" % str(r)[:160]
+    if not r.get("ok"):
+        return "%s failed: %s" % (r.get("stage"), str(r.get("display"))[:200])
+    v = r.get("validation_result") or {}
+    if not v.get("valid") or v.get("errors"):
+        return "the generated message does not pass validation: %s" % str(v.get("errors"))[:200]
+    d = first_diff(strip(r["sample_json"]), strip(r["mt_json"]))
+    if d:
+        return "the JSON parsed back differs from the generated JSON at %s: generated %r, parsed %r" % (d[0], d[1], d[2])
+    return None
+
+
+# ------------------------------------------------------------------ directed draws (worker processes)
+
+GOALS = {
+    "ends_blank": lambda s, n: s.endswith(" "),
+    "ends_punct": lambda s, n: bool(re.search(r"[^A-Za-z0-9 ]$", s)),
+    "starts_punct": lambda s, n: bool(re.search(r"^[^A-Za-z0-9]", s)),
+    "apostrophe": lambda s, n: "'" in s,
+    "full": lambda s, n: n is not None and len(s) == n,
+    "full-1": lambda s, n: n is not None and len(s) == n - 1,
+    "short": lambda s, n: len(s) <= 8,
+}
+
+
+def leaf_limit(classes, reqs, tag, key):
+    r = scen2v.req_for(reqs, tag, key)
+    if not r:
+        return None
+    return r["hi"] if "hi" in r else max(h for _, h in r["alts"])
+
+
+def directed_for_file(arg):
+    f, seed, tries, targets, pool = arg
+    scen.POOL.update(pool)
+    rng = random.Random(seed)
+    d = json.load(open(f))
+    classes, reqs = scen2v.load_reqs()
+    out = []
+
+    def rdraw(how="random"):
+        try:
+            return scen.random_draw(d, rng, how)
+        except scen.Opaque:
+            return None
+    if rdraw() is None:
+        return f, []
+    for how in ("longest", "shortest", "special", "random", "random"):
+        out.append((how, rdraw(how)))
+    # countries of the BICs: the rules that compare sender / receiver / ordering countries see every combination
+    for cc in ("DE", "US", "AD", "GB"):
+        dr = rdraw()
+        for p, a in scen.all_fakes(d):
+            if a[0] in ("bic8", "bic11"):
+                v = dr[p]
+                dr[p] = v[:4] + cc + v[6:]
+        out.append(("bic-country-" + cc, dr))
+    for dt in ("2028-02-29", "2049-12-31", "2030-01-01", "2026-12-31"):
+        dr = rdraw()
+        import datetime
+        y, m, dd = map(int, dt.split("-"))
+        for p, a in scen.all_fakes(d):
+            if a[0] == "date":
+                dr[p] = datetime.date(y, m, dd).strftime(a[1] if len(a) > 1 else "%Y-%m-%d")
+        out.append(("date-" + dt, dr))
+    base = rdraw()
+    for tag, kpath, jpath, tm in scen.leaves(d):
+        if not scen.is_op(tm):
+            continue
+        key = "/".join(kpath)
+        n = leaf_limit(classes, reqs, tag, key)
+        goals = {g: (lambda s, fn=fn, n=n: fn(s, n)) for g, fn in GOALS.items()}
+        t = tries * (6 if (f, jpath) in targets else 1)
+        if (f, jpath) in targets:
+            cs = set(classes["x"])
+            goals["over"] = lambda s, n=n: n is not None and len(s) > n
+            goals["odd-char"] = lambda s: any(c not in cs for c in s)
+        for g, dr in scen.leaf_search(d, jpath, tm, goals, rng, base, tries=t).items():
+            out.append(("%s at /%s" % (g, "/".join(map(str, jpath))), dr))
+    res = []
+    for how, dr in out:
+        if dr is None:
+            continue
+        inst = scen.apply_draw(d, dr)
+        try:
+            mj, _ = scen.model_generate(d, dr)
+            opaque = None
+        except scen.Opaque as e:
+            mj, opaque = None, str(e)
+        res.append((how, json.dumps(inst), mj, opaque))
+    return f, res
+
+
+# ------------------------------------------------------------------ requirement samples
+
+def req_samples(classes, r, full):
+    cs = classes[r["cls"]]
+    lo, hi = (r["lo"], r["hi"]) if "lo" in r else r["alts"][0]
+    fn, ln = r.get("first_not", ""), r.get("last_not", "")
+    punct = [c for c in cs if not c.isalnum()]
+    if not full:
+        punct = [c for c in punct if c in " /-'.,:+?()"]
+    out = []
+    s = [cs[i % len(cs)] for i in range(hi)]
+    if s[0] in fn:
+        s[0] = "A"
+    if s[-1] in ln:
+        s[-1] = "Z"
+    out.append("".join(s))
+    out.append("A" * lo)
+    for p in punct:
+        if hi >= 3:
+            if p not in fn:
+                out.append(p + "AB")
+            if p not in ln:
+                out.append("AB" + p)
+            out.append("A" + p + "B")
+        if lo <= 1 and p not in fn and p not in ln and p not in r.get("one_not", ""):
+            out.append(p)
+    out.append("A" * (hi - 1) + ("Z" if " " in ln else " "))
+    if r["sample"] == "reference":
+        out = [x for x in out if "//" not in x]
+    return out
+
+
+def set_path(node, jpath, val):
+    for k in jpath[:-1]:
+        node = node[k]
+    node[jpath[-1]] = val
+
+
 def run(ctx):
-    ctx.rule = ("every scenario file under /repo/test_scenarios (all 30 types; index and README excluded), N random draws each (quick 40, thorough 600) "
-                "through generate_mt -> publish_mt -> validate_mt -> parse_mt; a draw passes when all four succeed, validation reports valid with "
-                "no error, and the parsed JSON equals the generated JSON exactly; distinct = (scenario file, generated MT text)")
-    standard_front(ctx, __import__("c15"))
-    known, _ = load_known(PROP)
     full = ctx.tier == "thorough"
-    n = 600 if full else 40
-    files = sorted(f for f in glob.glob(os.path.join(REPO, "test_scenarios", "mt*", "*.json")) if os.path.basename(f) != "index.json")
+    n_random = 300 if full else 20
+    n_fake = 3000 if full else 400
+    tries = 200 if full else 30
+    ctx.rule = ("every scenario file under /repo/test_scenarios (all 30 types; index and README excluded). (a) proof side: every text leaf with a requirement, all draws "
+                "(gen/Scenarios.v). (b) N random draws of the library's own generator per file (quick %d, thorough 300). (c) directed draws per file: every generator at its "
+                "longest / shortest / most unusual value, BIC countries DE/US/AD/GB, dates 2028-02-29 / 2049-12-31 / 2030-01-01 / 2026-12-31, and for every variable "
+                "leaf a search (%d tries) for values that end in a blank, end or start in punctuation, contain an apostrophe, fill the component exactly or by one less; "
+                "the fake nodes are replaced by the chosen values and the library's own generator evaluates the rest. (d) strings drawn from each requirement at a leaf "
+                "that has it. Every draw goes through generate_mt -> publish_mt -> validate_mt -> parse_mt; it passes when all succeed, validation reports valid "
+                "with no error, and the parsed JSON equals the generated JSON exactly; distinct = (scenario file, generated MT text)") % (n_random, tries)
+    try:
+        tstats = scen2v.write_v()
+        ctx.stats["scenario_translation"] = {k: v for k, v in tstats.items() if k != "unconstrained_keys"}
+        ctx.stats["leaves_without_requirement"] = sum(tstats["unconstrained_keys"].values())
+    except Exception as e:
+        ctx.broken.append("translator scen2v: %s" % str(e)[:300])
+    proof_ok = standard_front(ctx, __import__("c15"))
+    known, _ = load_known(PROP)
+    classes, reqs = scen2v.load_reqs()
+    files = scen.scenario_files()
+
+    def bad(rel, what, case, extra=None):
+        kk = [k for k in known if k.get("match", {}).get("kind") == "scenario" and k["match"].get("file") == rel and re.search(k["match"].get("what_re", ""), what)]
+        if kk:
+            ctx.known_hits[kk[0]["id"]] = ctx.known_hits.get(kk[0]["id"], 0) + 1
+        else:
+            ctx.violations.append(("%s: %s" % (rel, what), case + ("\n# failing draw: " + json.dumps(extra)[:4000] if extra is not None else "")))
+
+    # ---- which leaves does the proof side not carry?  (Python mirror of Scenario/Lang.v abs / fits: diagnosis and targets only)
+    targets, not_fitting = set(), []
+    for f in files:
+        d = json.load(open(f))
+        V = d.get("variables", {})
+        for tag, kpath, jpath, node in scen.leaves(d):
+            if isinstance(node, (int, float)) and not isinstance(node, bool):
+                continue
+            r = scen2v.req_for(reqs, tag, "/".join(kpath))
+            if not r:
+                continue
+            cs, fst, lst, one = scen.req_sets(classes, r)
+            x = scen.a_tm(node, V)
+            alts = r.get("alts") or [[r["lo"], r["hi"]]]
+            if not any(scen.a_fits(x, cs, lo, hi, fst, lst, one) for lo, hi in alts):
+                targets.add((f, jpath))
+                not_fitting.append("%s /%s: %s" % (os.path.relpath(f, REPO), "/".join(map(str, jpath)), scen.why_not(x, cs, alts[0][0], alts[-1][1], fst, lst, one)))
+    if not_fitting:
+        ctx.say("  leaves that do not fit their requirement: %d, e.g. %s" % (len(not_fitting), not_fitting[:3]))
+        ctx.stats["leaves_not_fitting"] = not_fitting[:20]
+        if proof_ok:
+            ctx.broken.append("the diagnosis (lib/scen.py a_tm) finds leaves that do not fit while Scenario/Instance.v builds: the two readings of the scenario files differ")
+    elif not proof_ok and any("Scenario" in b or "C15" in b for b in ctx.broken):
+        ctx.say("  the proof side is broken but the diagnosis finds every leaf fitting")
+
+    # ---- (A) the generators' languages: real values are members
+    kinds = {}
+    scen.POOL.clear()
+    for f in files:
+        for p, a in scen.all_fakes(json.load(open(f))):
+            kinds[json.dumps(a)] = a
+    kl = sorted(kinds)
+    res = run_lib(ctx, ["fakegen\t%s\t%d" % (hexs(k), n_fake) for k in kl], "c15fake")
+    not_member = 0
+    pool = {}
+    for k, r in zip(kl, res):
+        a = kinds[k]
+        if scen.lang_of(a) is None:
+            ctx.broken.append("generator kind not modelled: fake %s" % k)
+            if r.get("ok"):
+                pool[k] = r["values"][:50]
+            continue
+        if not r.get("ok"):
+            ctx.broken.append("fakegen %s: %s" % (k, str(r)[:120]))
+            continue
+        for v in r["values"]:
+            ctx.evaluations += 1
+            s = v if isinstance(v, str) else json.dumps(v)
+            if scen.member(a, s) is not True:
+                not_member += 1
+                if not_member <= 3:
+                    ctx.disagreements.append({"kind": k, "library": s, "model": "not in the language transcribed for this generator"})
+    scen.POOL.update(pool)
+    ctx.stats["generator_kinds"] = len(kl)
+    ctx.stats["generator_values_checked"] = len(kl) * n_fake
+
+    # ---- (B) the library's own random draws
     cases, meta = [], []
     for f in files:
-        for i in range(n):
-            cases.append("scenario\t%s" % f); meta.append(f)
+        for i in range(n_random):
+            cases.append("scenario\t%s" % f); meta.append((f, "library-draw"))
+    # ---- (C) directed draws
+    with ProcessPoolExecutor(16) as ex:
+        directed = list(ex.map(directed_for_file, [(f, ctx.seed * 1000 + i, tries, targets, pool) for i, f in enumerate(files)]))
+    model_json = {}
+    opaque = {}
+    for f, lst in directed:
+        for how, inst, mj, op in lst:
+            model_json[len(cases)] = mj
+            if op:
+                opaque[os.path.relpath(f, REPO)] = op
+            cases.append("scenario_json\t%s" % hexs(inst)); meta.append((f, how))
+    # ---- (D) requirement samples
+    hosts = {}
+    for f in files:
+        d = json.load(open(f))
+        for tag, kpath, jpath, tm in scen.leaves(d):
+            hosts.setdefault((tag, "/".join(kpath)), []).append((f, jpath))
+    nreq = 0
+    for (tag, key), hl in sorted(hosts.items(), key=lambda x: (str(x[0][0]), x[0][1])):
+        r = scen2v.req_for(reqs, tag, key)
+        if not r or r.get("sample") not in ("line", "reference"):
+            continue
+        for f, jpath in (hl[:3] if full else hl[:1]):
+            d = json.load(open(f))
+            for s in req_samples(classes, r, full):
+                try:
+                    inst = scen.apply_draw(d, scen.random_draw(d, ctx.rng))
+                except scen.Opaque:
+                    continue
+                set_path(inst["schema"], jpath, s)
+                cases.append("scenario_json\t%s" % hexs(json.dumps(inst))); meta.append((f, "requirement %s %s: %r" % (tag, key, s)))
+                nreq += 1
     res = run_lib(ctx, cases, "c15")
     per = {}
-    for f, r, case in zip(meta, res, cases):
+    hows = {}
+    req_fail = []
+    for i, ((f, how), r, case) in enumerate(zip(meta, res, cases)):
         ctx.evaluations += 1
         rel = os.path.relpath(f, REPO)
         st = per.setdefault(rel, {"draws": 0, "ok": 0})
         st["draws"] += 1
-        def bad(what, extra=None):
-            kk = [k for k in known if k.get("match", {}).get("kind") == "scenario" and k["match"].get("file") == rel and re.search(k["match"].get("what_re", ""), what)]
-            if kk:
-                ctx.known_hits[kk[0]["id"]] = ctx.known_hits.get(kk[0]["id"], 0) + 1
-            else:
-                # the replay names the scenario file and carries the draw that failed (the generator's RNG cannot be seeded from outside)
-                ctx.violations.append(("%s: %s" % (rel, what), case + ("\n# failing draw: " + json.dumps(extra)[:4000] if extra is not None else "")))
-        if "panic" in r or "crash" in r:
-            bad("the pipeline panicked or died: %s" % str(r)[:160]); continue
+        kind = how.split(" ")[0]
+        hows[kind] = hows.get(kind, 0) + 1
         if r.get("bad_case"):
             ctx.broken.append("harness: %s: %s" % (rel, r["bad_case"])); continue
-        if not r.get("ok"):
-            bad("%s failed: %s" % (r.get("stage"), str(r.get("display"))[:200]), r.get("sample_json")); continue
-        v = r.get("validation_result") or {}
-        if not v.get("valid") or v.get("errors"):
-            bad("the generated message does not pass validation: %s" % str(v.get("errors"))[:200], r.get("sample_json")); continue
-        a, b = strip(r["sample_json"]), strip(r["mt_json"])
-        d = first_diff(a, b)
-        if d:
-            bad("the JSON parsed back differs from the generated JSON at %s: generated %r, parsed %r" % (d[0], d[1], d[2]), r.get("sample_json")); continue
-        st["ok"] += 1
-        ctx.distinct.add((rel, r["sample_mt"] if isinstance(r["sample_mt"], str) else json.dumps(r["sample_mt"])))
-        if len(ctx.samples) < 3:
-            ctx.samples.append({"scenario": rel, "mt_first_line": (r["sample_mt"] if isinstance(r["sample_mt"], str) else "")[:60]})
-    ctx.stats.update({"scenario_files": len(files), "draws_per_file": n, "files_with_a_failing_draw": sorted(k for k, v in per.items() if v["ok"] < v["draws"])[:40]})
+        # the model of the template language against the library's generator
+        if i in model_json and model_json[i] is not None and isinstance(r.get("sample_json"), (dict, list)) and model_json[i] != r["sample_json"]:
+            dd = first_diff(model_json[i], r["sample_json"])
+            ctx.disagreements.append({"scenario": rel, "how": how, "model": str(dd[1])[:80] if dd else "?", "library": str(dd[2])[:80] if dd else "?",
+                                      "at": dd[0] if dd else "?", "replay": case})
+        w = verdict(r)
+        if w is None:
+            st["ok"] += 1
+            ctx.distinct.add((rel, r["sample_mt"] if isinstance(r["sample_mt"], str) else json.dumps(r["sample_mt"])))
+            if len(ctx.samples) < 3 and how != "library-draw":
+                ctx.samples.append({"scenario": rel, "draw": how, "mt_first_line": (r["sample_mt"] if isinstance(r["sample_mt"], str) else "")[:60]})
+            continue
+        if how.startswith("requirement "):
+            # not a draw of the scenario: the requirement table claims more than the library accepts
+            req_fail.append("%s (%s): %s" % (how, rel, w[:160]))
+            continue
+        bad(rel, "[%s] %s" % (how, w), case, r.get("sample_json"))
+    if req_fail:
+        ctx.stats["requirement_strings_not_passing"] = req_fail[:40]
+        ctx.broken.append("correspondence: requirement table vs library: %d string(s) of a requirement do not pass, first: %s" % (len(req_fail), req_fail[0][:300]))
+    if ctx.disagreements:
+        ctx.broken.append("correspondence: scenario model vs library generator: %d disagreement(s), first: %s" % (
+            len(ctx.disagreements), json.dumps({k: v for k, v in ctx.disagreements[0].items() if k != "replay"})[:300]))
+    ctx.stats.update({"scenario_files": len(files), "library_draws_per_file": n_random, "draws_by_kind": hows, "requirement_samples": nreq,
+                      "templates_outside_the_model": opaque,
+                      "files_with_a_failing_draw": sorted(k for k, v in per.items() if v["ok"] < v["draws"])[:40]})
     return finish(ctx, level="proof", trusted=TRUSTED,
-                  assumptions=["'equal to what was generated': JSON equality with numbers compared as binary64 values and an absent key equal to null; empty objects left by absent members are ignored"])
+                  assumptions=["'equal to what was generated': JSON equality with numbers compared as binary64 values and an absent key equal to null; empty objects left by absent members are ignored",
+                               "the clock's date lies in 2000-2049"])
